@@ -94,6 +94,8 @@ pub fn run_chain<S: Settings>(sc: &J) -> Result<(), String> {
     let chain_id = sc["chain"].as_u64().unwrap_or(0);
     let mut rng = ChaCha8Rng::seed_from_u64(seed);
     rng.set_stream(chain_id + 1);
+    // the outer RNG records every 32-byte seed it hands out (C04: locating the momentum in the chain's stream)
+    let mut rng = crate::momentum::SeedTap { inner: rng, seeds: vec![] };
     let created = std::panic::catch_unwind(std::panic::AssertUnwindSafe(|| {
         settings.new_chain(chain_id, math, &mut rng)
     }));
@@ -105,6 +107,8 @@ pub fn run_chain<S: Settings>(sc: &J) -> Result<(), String> {
         }
     };
     emit(json!({"ev": "new_chain", "ok": true}));
+    emit(json!({"ev": "rng_seeds", "seeds": rng.seeds.iter()
+        .map(|s| s.iter().map(|b| format!("{b:02x}")).collect::<String>()).collect::<Vec<_>>()}));
     let init: Vec<f64> = match sc["init"].as_array() {
         Some(a) => a.iter().map(|x| x.as_f64().unwrap()).collect(),
         None => vec![0.1; dim],
@@ -186,6 +190,28 @@ pub fn run_scenario(sc: &J) -> Vec<J> {
     let mut evs = verif::take_local_sink();
     if let Err(e) = r {
         evs.push(json!({"ev": "harness_error", "msg": e}));
+    }
+    if sc["momentum"] == true {
+        let seeds: Vec<[u8; 32]> = evs.iter().filter(|e| e["ev"] == "rng_seeds").flat_map(|e| {
+            e["seeds"].as_array().unwrap().iter().map(|h| {
+                let h = h.as_str().unwrap();
+                let mut s = [0u8; 32];
+                for i in 0..32 {
+                    s[i] = u8::from_str_radix(&h[2 * i..2 * i + 2], 16).unwrap();
+                }
+                s
+            }).collect::<Vec<_>>()
+        }).collect();
+        crate::momentum::annotate(&mut evs, &seeds);
+        // keep the log small: only what the momentum trace needs
+        evs.retain(|e| matches!(e["ev"].as_str().unwrap_or(""), "momentum" | "leap" | "draw_out" | "set_position" | "new_chain" | "traj_init" | "harness_error" | "truncated" | "search_start" | "search_end"));
+    } else {
+        // the velocity vectors are only needed for the momentum trace
+        for e in evs.iter_mut() {
+            if e["ev"] == "momentum" {
+                e.as_object_mut().unwrap().remove("v");
+            }
+        }
     }
     evs
 }
